@@ -9,6 +9,12 @@ state, parents, children, features['sensitivity'|'gradient']), the objective's c
 the batches (vectors at submission), the tolerances, the declared number of objectives, the objective /
 sign conversion as a recorded table and the tape of transient failures, and must reproduce all of it bit for bit.
 
+User objective names and evaluator objects (red-team round 5): the user's costs are named F0, F1, ... or after names the framework uses
+itself ('sensitivity' = the cost every evaluator constructor appends, 'gradient', 'feasible', 'precision'), with duplicates and unsorted
+names; a second Algorithm / evaluator may be built on the same Problem before or after the evaluating one, or be used alternately with it.
+The model ignores both (the unchanged code never reads a cost name; self.n only decides append / overwrite, and both m+1 and m+2 append
+for a design with m costs); the oracle stays at the property text: m user objectives + 1.
+
 Transient failures: the harness's objective raises RuntimeError / TimeoutError at scripted GLOBAL call numbers
 (on designs and on neighbours, runs of 1..4 consecutive numbers, never 5); Job handles them by re-drawing the
 individual (gen_vector, recorded through a proxy of artap.job.VectorAndNumbers); the tape (call number, re-drawn
@@ -74,6 +80,11 @@ ASSUMPTIONS = [
     "ndarray is outside the domain: numpy truncates the displaced coordinate on assignment in the unchanged code as well (probed on every run, "
     "coverage.input_distribution.integer_ndarray_probe; candidate finding, notes/C14.md); tuples are rejected by Individual.__init__",
     "the sum in the extra objective and the finite difference use the FIRST user objective only (costs[0]), as the code does",
+    "the user objectives may have any names (also 'sensitivity', 'gradient', 'feasible', duplicates: the unchanged code never reads them) and "
+    "further evaluator objects may be built on the same problem; a design that is submitted AGAIN is processed by the evaluator that was built "
+    "FIRST for the problem (self.n = m + 1). The evaluator built second has self.n = m + 2 and appends a second extra entry to a resubmitted "
+    "design in the unchanged code: candidate finding, probed on every run (coverage.input_distribution.second_evaluator_resubmission_probe), "
+    "not generated, not judged (notes/C14.md, red-team round 5)",
 ]
 
 HEADER = ("From Artap Require Import Run.C14Run.\nFrom Coq Require Import List ZArith Floats.\nImport ListNotations.\n"
@@ -91,6 +102,18 @@ DELTA = 1e-4
 # from arrays / data frames), and a float ndarray (flag vec_numpy; what the scipy / nlopt wrappers pass)
 REPS = ["float", "float", "float", "float", "int", "int", "mixed", "mixed", "npint", "npfloat", "npmixed"]
 IGRID = [0, 1, 2, -1, -2, 3, 5, -3, 10, 1, 0, 2]
+# red-team round 5 (RT5_C14_2): names of the USER objectives that collide with names the framework itself uses (the extra cost the
+# evaluators declare is called 'sensitivity'; 'gradient' / 'feasible' / 'precision' are feature keys), with each other (duplicates)
+# and whose sorted order differs from the declared one ('F_10' < 'F_2'); None = the plain names F0, F1, ...
+NAMES = ["sensitivity", "sensitivity", "sensitivity", "gradient", "feasible", "F", "F", "F_10", "F_2", "precision", "Sensitivity", ""]
+# a SECOND evaluator object on the same problem (a second Algorithm built for it, as a two-stage optimisation does): built before
+# or after the one that evaluates (same evaluator type or the other one), or used alternately with it batch by batch.  Every
+# evaluator constructor appends {'name': 'sensitivity'} to problem.costs, so the one built second has self.n = m + 2.
+SECONDS = ["before", "after", "alternate", "before_other", "after_other"]
+
+
+def gen_names(rng, m):
+    return [rng.choice(NAMES) for _ in range(m)]
 
 
 def bits(x):
@@ -231,7 +254,14 @@ def gen_case(rng, forced=None):
         fails = gen_fails(rng, est, rng.choice([1, 1, 2, 3]))
     else:
         fails = []
-    return {"mode": "direct", "fails": fails, "seed": forced.get("seed", rng.randrange(10 ** 6)), "wc": wc, "n": n, "m": m, "tols": tols, "objs": objs, "again": again, "pre": pre, "flags": flags,
+    gen = "batches" not in forced
+    names = forced.get("names", gen_names(rng, m) if gen and rng.random() < 0.3 else None)
+    second = forced.get("second", rng.choice(SECONDS) if gen and rng.random() < 0.25 else None)
+    if second in ("before", "before_other", "alternate") and any(again):
+        # the evaluator built second has self.n = m + 2: a design it processes AGAIN gets a second extra entry in the unchanged code
+        # (candidate finding, probed on every run: coverage.input_distribution.second_evaluator_resubmission_probe, never judged)
+        second = "after" if second == "before" else "after_other" if second == "before_other" else None
+    return {"mode": "direct", "names": names, "second": second, "fails": fails, "seed": forced.get("seed", rng.randrange(10 ** 6)), "wc": wc, "n": n, "m": m, "tols": tols, "objs": objs, "again": again, "pre": pre, "flags": flags,
             "criteria": forced.get("criteria", [rng.choice(["minimize", "maximize"]) for _ in range(m)]),
             # a re-drawn design holds a Python list: with numpy vectors the objective would return numpy.float64 for some designs
             # and exact floats for others (sum() then switches algorithm per design): make it return numpy.float64 throughout
@@ -248,7 +278,9 @@ def gen_algo_case(rng):
     pop, gens = rng.choice([2, 3, 4, 6]), rng.choice([2, 3, 4, 5])
     wc = rng.random() < 0.5
     fails = gen_fails(rng, pop * gens * ((2 * n + 1) if wc else (n + 1)), rng.choice([1, 2, 3])) if rng.random() < 0.6 else []
-    return {"mode": rng.choice(["EpsMOEA", "NSGAII"]), "wc": wc, "fails": fails, "n": n, "m": m,
+    names = gen_names(rng, m) if rng.random() < 0.4 else None
+    second = rng.choice(["before", "after", "before_other", "after_other"]) if rng.random() < 0.3 else None
+    return {"mode": rng.choice(["EpsMOEA", "NSGAII"]), "wc": wc, "fails": fails, "n": n, "m": m, "names": names, "second": second,
             "tols": [rng.choice([0.25, 0.1, 1e-3, 0.05]) for _ in range(n)],
             "objs": [{"kind": rng.choice(["quad", "lin", "abs", "sin", "prod"]), "a": [rng.choice(COEF[:8]) for _ in range(n)],
                       "b": rng.choice(COEF[:8])} for _ in range(m)],
@@ -302,7 +334,8 @@ def run(ctx):
             if case["flags"]["shared_param"] and len(set(case["tols"])) == 1:
                 self.parameters = [self.parameters[0]] * len(case["tols"])      # one dict object for every axis
             self.constr = case["flags"]["constr"]
-            self.costs = [{'name': 'F%d' % k, 'criteria': c} for k, c in enumerate(case["criteria"])]
+            names = case.get("names") or ['F%d' % k for k in range(len(case["criteria"]))]
+            self.costs = [{'name': names[k], 'criteria': c} for k, c in enumerate(case["criteria"])]
             self.fns = [make_objective(s) for s in case["objs"]]
             self.ret_numpy = case["ret_numpy"]
             self.calls = []          # (Individual object, vector at the call, returned costs or None, failed?)
@@ -343,6 +376,8 @@ def run(ctx):
                 return
         inp = {k: case.get(k) for k in ("mode", "wc", "n", "m", "tols", "objs", "criteria", "batches", "again", "pre", "fails", "seed",
                                         "pop", "gens", "types", "int_tol")}
+        inp["user_objective_names"] = case.get("names") or ['F%d' % k for k in range(case["m"])]
+        inp["second_evaluator_on_the_same_problem"] = case.get("second")
         inp["design_vectors_given_as"] = ("float ndarray" if case["flags"].get("vec_numpy") else
                                           {"float": "list of float", "int": "list of int", "mixed": "list of int / float (see types)",
                                            "npint": "list of numpy.int64", "npfloat": "list of numpy.float64",
@@ -667,6 +702,11 @@ def run(ctx):
         et = EvaluatorType.WORST_CASE if case["wc"] else EvaluatorType.GRADIENT
         submitted, proc = [], []
         raised = None
+        second = case.get("second")
+        et_other = EvaluatorType.GRADIENT if case["wc"] else EvaluatorType.WORST_CASE
+        alg2 = None
+        if second in ("before", "before_other", "alternate"):
+            alg2 = Direct(problem, evaluator_type=et_other if second == "before_other" else et)
         if case["mode"] == "direct":
             alg = Direct(problem, evaluator_type=et)
         else:
@@ -674,13 +714,23 @@ def run(ctx):
             alg.options['max_population_number'] = case["gens"]
             alg.options['max_population_size'] = case["pop"]
             alg.options['verbose_level'] = 0
+        if second in ("after", "after_other"):
+            alg2 = Direct(problem, evaluator_type=et_other if second == "after_other" else et)
         ev = alg.evaluator
-        orig_run = ev.run
+        # "alternate": even batches go through the evaluator built second, odd ones through the one built first (two evaluator
+        # objects of one type on one problem; their work lists are empty between batches, so the model's single pair of lists is both)
+        algs = [alg, alg2] if second == "alternate" else [alg]
+        evs = [a.evaluator for a in algs] + ([alg2.evaluator] if alg2 is not None and second != "alternate" else [])
 
-        def run_rec():
-            proc.append(list(ev.individuals))
-            orig_run()
-        ev.run = run_rec
+        def wrap_run(e):
+            orig_run = e.run
+
+            def run_rec():
+                proc.append(list(e.individuals))
+                orig_run()
+            e.run = run_rec
+        for e in evs:
+            wrap_run(e)
         oracle = oracle_wc if case["wc"] else oracle_grad
         # cells in the order the model creates them: the designs of a batch when the algorithm creates them, the
         # children when add() creates them (numbered right after each evaluate call: a design that is submitted again
@@ -728,7 +778,7 @@ def run(ctx):
                 created.extend(new)
                 submitted.append([(x, [float(t) for t in x.vector]) for x in before])
                 try:
-                    alg.evaluate(inds)
+                    algs[bi % len(algs)].evaluate(inds)
                 except IndexError as e:
                     raised = "IndexError"
                     break
@@ -762,8 +812,9 @@ def run(ctx):
             case["pre"] = [[False] * len(b) for b in submitted]
         if raised is None:
             oracle_proc(case, proc, submitted)
-            if len(ev.individuals) != 0 or len(ev.to_evaluate) != 0:
-                fail("work lists not empty between batches: %d individuals, %d to_evaluate" % (len(ev.individuals), len(ev.to_evaluate)),
+            if any(len(e.individuals) != 0 or len(e.to_evaluate) != 0 for e in evs):
+                fail("work lists not empty between batches: %r individuals, %r to_evaluate (per evaluator object)"
+                     % ([len(e.individuals) for e in evs], [len(e.to_evaluate) for e in evs]),
                      case, "worstcase_reprocess" if case["wc"] else "gradient_reprocess")
         UNKNOWN = 999999
 
@@ -791,7 +842,7 @@ def run(ctx):
         obs = None if raised else {
             "cells": [cell(x) for x in order], "log": [[num(t) for t in v] for (_, v, _, _) in problem.calls],
             "proc": [[number.get(id(o), UNKNOWN) for o in lst] for lst in proc],
-            "n_inds": len(ev.individuals), "n_todo": len(ev.to_evaluate), "idss": idss}
+            "n_inds": sum(len(e.individuals) for e in evs), "n_todo": sum(len(e.to_evaluate) for e in evs), "idss": idss}
         failed_calls = [k for k, (_, _, _, failed) in enumerate(problem.calls) if failed]
         case["tape"] = [[k, w] for k, w in zip(failed_calls, problem.rerolls)]
         if len(failed_calls) != len(problem.rerolls):
@@ -828,7 +879,9 @@ def run(ctx):
             "nonfinite_values": 0, "duplicate_vectors_in_case": 0,
             "resubmission_cases": 0, "pre_evaluated_cases": 0, "flags": {}, "design_vector_representation": {},
             "cases_with_transient_failures": 0, "failed_calls": 0, "failure_runs_by_length": {}, "failed_calls_on_designs": 0,
-            "failed_calls_on_neighbours": 0, "f13_designs": 0}
+            "failed_calls_on_neighbours": 0, "f13_designs": 0,
+            "cases_with_colliding_names": 0, "user_objective_names": {}, "cases_with_duplicate_names": 0,
+            "cases_with_a_user_objective_named_sensitivity": 0, "second_evaluator": {}}
 
     def bump(d, k):
         d[str(k)] = d.get(str(k), 0) + 1
@@ -841,13 +894,14 @@ def run(ctx):
             ctx.count(None, nontrivial=False)
             if len(ctx.mismatches) < 20:
                 ctx.mismatches.append({"what": "the implementation raised %r on a case the model completes" % (e,), "correspondence": "c14",
-                                       "case": {k: case.get(k) for k in ("mode", "wc", "n", "m", "tols", "objs", "batches", "again", "pre", "flags", "seed", "pop", "gens")},
+                                       "case": {k: case.get(k) for k in ("mode", "wc", "n", "m", "tols", "objs", "batches", "again", "pre", "flags", "seed", "pop", "gens", "names", "second")},
                                        "traceback": traceback.format_exc()[-1500:]})
             return
         c, e = encode(case, obs, table)
         cases.append(c)
         expected.append(e)
         mt = {k: case[k] for k in ("mode", "wc", "n", "m", "tols", "objs", "criteria", "batches", "again", "pre", "flags", "types", "fails", "tape")}
+        mt["names"], mt["second"] = case.get("names"), case.get("second")
         for k in ("pop", "gens", "seed"):
             if k in case:
                 mt[k] = case[k]
@@ -877,6 +931,14 @@ def run(ctx):
                 for ci, cl in enumerate(obs["cells"]):
                     hist["failed_calls_on_neighbours" if (ci in kids or cl["parents"]) else "failed_calls_on_designs"] += cl["fail"]
         hist["resubmission_cases"] += any(case["again"])
+        if case.get("names"):
+            hist["cases_with_colliding_names"] += 1
+            for nm in sorted(set(case["names"])):
+                bump(hist["user_objective_names"], repr(nm) + ("/worst_case" if case["wc"] else "/gradient"))
+            hist["cases_with_duplicate_names"] += len(set(case["names"])) < len(case["names"])
+            hist["cases_with_a_user_objective_named_sensitivity"] += "sensitivity" in case["names"]
+        if case.get("second"):
+            bump(hist["second_evaluator"], case["second"] + ("/worst_case" if case["wc"] else "/gradient"))
         hist["pre_evaluated_cases"] += any(any(p) for p in case["pre"])
         for k, v in case["flags"].items():
             if k == "rep":
@@ -898,7 +960,7 @@ def run(ctx):
         key = (case["mode"], case["wc"], case["n"], case["m"], tuple(case["tols"]),
                tuple((o["kind"], tuple(o["a"]), o["b"]) for o in case["objs"]),
                tuple(tuple(tuple(v) for v in b) for b in case["batches"]), tuple(tuple(a) for a in case["again"]), tuple(tuple(a) for a in case["pre"]),
-               tuple(tape_ks))
+               tuple(tape_ks), tuple(case.get("names") or ()), case.get("second"))
         ctx.count(key, nontrivial=(len(case["batches"]) >= 2 and obs is not None))
         if len(case["batches"]) == 2 and nd <= 3 and case["mode"] == "direct" and obs is not None and not any(case["again"]):
             ctx.sample(mt, limit=3)
@@ -972,6 +1034,49 @@ def run(ctx):
     ]
     for f in failing:
         add(gen_case(rng, dict({"flags": OFF}, **dict(f, criteria=["minimize", "maximize"][:f["m"]], ret_numpy=False))))
+    # red-team round 5 (RT5_C14_2): user objectives named like the names the framework uses itself, both evaluators; a second
+    # evaluator object on the same problem (built before / after the evaluating one, of the same / the other type, or used alternately)
+    nb2 = [[[0.5, -1.0], [1.5, 0.25]], [[-1.0, 1.0]]]
+    for wc in (True, False):
+        for names in (["F", "sensitivity"], ["sensitivity", "F"], ["sensitivity", "sensitivity"], ["gradient", "feasible"], ["F", "F"], ["F_10", "F_2"]):
+            add(gen_case(rng, {"wc": wc, "n": 2, "m": 2, "tols": [0.05, 0.2], "objs": q2, "batches": nb2, "names": names, "fails": [],
+                               "criteria": ["minimize", "maximize"], "ret_numpy": False, "flags": OFF}))
+        add(gen_case(rng, {"wc": wc, "n": 1, "m": 1, "tols": [0.25], "objs": q1, "batches": [[[0.5]], [[0.25], [0.5]], [[1.0]]], "names": ["sensitivity"],
+                           "fails": [], "criteria": ["minimize"], "ret_numpy": False, "flags": OFF}))
+        # ... submitted again, with transient failures, pre-evaluated, with a second evaluator
+        add(gen_case(rng, {"wc": wc, "n": 2, "m": 2, "tols": [0.05, 0.2], "objs": q2, "batches": nb2 + [[]], "again": [[], [0], [0, 2]],
+                           "names": ["F", "sensitivity"], "fails": [], "criteria": ["minimize", "maximize"], "ret_numpy": False, "flags": OFF}))
+        add(gen_case(rng, {"wc": wc, "n": 2, "m": 2, "tols": [0.05, 0.2], "objs": q2, "batches": nb2, "pre": [[True, False], [False]],
+                           "names": ["sensitivity", "gradient"], "fails": [0, 4], "criteria": ["maximize", "minimize"], "ret_numpy": False,
+                           "flags": dict(OFF, reuse_list=True)}))
+        for second in SECONDS:
+            add(gen_case(rng, {"wc": wc, "n": 2, "m": 2, "tols": [0.05, 0.2], "objs": q2, "batches": nb2 + [[[0.5, -1.0]]], "second": second, "fails": [],
+                               "criteria": ["minimize", "maximize"], "ret_numpy": False, "flags": OFF}))
+            add(gen_case(rng, {"wc": wc, "n": 1, "m": 1, "tols": [0.1], "objs": q1, "batches": [[[0.5]], [[0.25]], [[0.5], [1.0]]], "second": second,
+                               "names": ["sensitivity"], "fails": [1], "criteria": ["minimize"], "ret_numpy": False, "flags": OFF}))
+        # the evaluator built FIRST processes a design again while a second one exists (its self.n is still m + 1)
+        add(gen_case(rng, {"wc": wc, "n": 2, "m": 2, "tols": [0.05, 0.2], "objs": q2, "batches": nb2 + [[]], "again": [[], [0], [0, 2]], "second": "after",
+                           "names": ["F", "sensitivity"], "fails": [], "criteria": ["minimize", "maximize"], "ret_numpy": False, "flags": OFF}))
+    # candidate finding, recorded and never judged: the evaluator built SECOND on a problem has self.n = m + 2 (both constructors appended
+    # the extra cost), so a design it processes a second time gets a second extra entry (m + 2 costs) in the unchanged code
+    try:
+        pc = gen_case(rng, {"wc": True, "n": 1, "m": 1, "tols": [0.25], "objs": q1, "batches": [[[0.5]]], "fails": [], "criteria": ["minimize"],
+                            "ret_numpy": False, "flags": OFF})
+        pp = Prob(case=pc)
+        Direct(pp, evaluator_type=EvaluatorType.WORST_CASE)
+        pa = Direct(pp, evaluator_type=EvaluatorType.WORST_CASE)
+        px = Individual([0.5])
+        lens = []
+        for _ in range(3):
+            pa.evaluate([px])
+            lens.append(len(px.costs))
+        hist["second_evaluator_resubmission_probe"] = {
+            "declared_costs": [c['name'] for c in pp.costs], "self_n_of_the_second_evaluator": pa.evaluator.n, "user_objectives": 1,
+            "cost_entries_after_1_2_3_submissions_to_the_second_evaluator": lens, "stays_at_user_objectives_plus_one": lens == [2, 2, 2]}
+        pp.cleanup()
+        pp.working_dir = ""
+    except Exception as e:
+        hist["second_evaluator_resubmission_probe"] = {"raised": repr(e)}
     # red-team round 2 (RT2_C14_2): every representation of a design vector, both evaluators.  Integral coordinates, negative ones
     # included (an int array truncates x + 1e-4 towards zero: 2 -> 2, -1 -> 0), int and float tolerances, two batches.
     ib = [[[2.0, -1.0], [0.0, 3.0]], [[-2.0, 1.0]]]
@@ -1013,7 +1118,11 @@ def run(ctx):
     ctx.rule = ("whole evaluator lives: 1..4 (in 7%% of the generated cases 5, 6 or 8) batches of 1..4 fresh designs (vectors from a grid of %d values so that designs, neighbours and "
                 "batches share vectors), 1..3 parameters with tolerances from %r, 1..2 user objectives from the families %r with grid "
                 "coefficients, pushed through Algorithm.evaluate with EvaluatorType.WORST_CASE / GRADIENT, plus short EpsMOEA / NSGAII runs "
-                "with either evaluator (generations = batches) and a hand-written corpus; design vectors given as lists of float / of int only / "
+                "with either evaluator (generations = batches) and a hand-written corpus; user objectives named F0, F1, ... or (30%% of the generated "
+                "cases, 40%% of the algorithm runs, 30 directed cases) drawn from names the framework uses itself / duplicates / unsorted names "
+                "('sensitivity', 'gradient', 'feasible', 'precision', 'F', 'F_10', 'F_2', 'Sensitivity', ''); a second evaluator object built on the "
+                "same problem before / after the evaluating one (same or other evaluator type) or used alternately with it (25%% / 30%%, 22 directed "
+                "cases); design vectors given as lists of float / of int only / "
                 "mixed int and float / of numpy.int64 / numpy.float64 scalars or as float ndarrays (18 directed corpus cases), parameters "
                 "declared 'integer' (re-draws are int lists); side streams: evaluated designs submitted again (12%%), "
                 "designs evaluated by a plain Evaluator first (10%%), numpy vectors, one re-used batch list object, a shared parameter dict, "
